@@ -212,6 +212,12 @@ func (c *regexpSimplifyChecker) walk(e syntax.Expr) {
 			c.score++
 		case "{0}":
 			// Maybe {0} should be reported by another check, regexpLint?
+			if c.hasCapture(e.Args[0]) {
+				// Dropping the operand would renumber the capture groups.
+				c.walk(e.Args[0])
+				out.WriteString(rep)
+				break
+			}
 			c.score++
 		case "{1}":
 			c.walk(e.Args[0])
